@@ -74,6 +74,13 @@ def size_arg_ok(an, body, e):
             return (oks[0][0], "derived from %s" % oks[0][1])
         if e[2].nsyn in ("std::option::Option::unwrap_or", "std::option::Option::unwrap_or_default"):
             return size_arg_ok(an, body, e[3][0])
+        if re.search(r"::(saturating|checked|wrapping)_(add|mul)$", n) and len(e[3]) == 2:
+            # linear in the size of existing data: a*len + b with a constant factor / addend
+            ra, rb = size_arg_ok(an, body, e[3][0]), size_arg_ok(an, body, e[3][1])
+            ca_, cb_ = const_eval(peel(e[3][0], widen=True)), const_eval(peel(e[3][1], widen=True))
+            if ra[0] and rb[0] and (ca_ is not None or cb_ is not None or n.endswith("_add")):
+                return True, "constant multiple / sum of lengths of existing data"
+            return False, "size = %s — not linear in the length of existing data" % canon(e)[:200]
     if k == "binop" and e[1] in ("Sub", "Div", "SubWithOverflow", "Shr", "Rem", "BitAnd"):
         return size_arg_ok(an, body, e[2])
     if k == "binop" and e[1].replace("WithOverflow", "") in ("Add", "Mul"):
